@@ -578,6 +578,33 @@ class Explorer:
         self.init_store = tuple(sorted(init_store, key=lambda kv: str(kv[0])))
         self.parent = {}
         self.exhausted = False
+        self.discr_locals = self._discr_locals(body)
+
+    @staticmethod
+    def _discr_locals(body):
+        cache = getattr(body, "_discr_locals", None)
+        if cache is not None:
+            return cache
+        out = set()
+        copies = []
+        for blk in body.blocks:
+            for s in blk["stmts"]:
+                if s["k"] != "Assign":
+                    continue
+                rv = s["rv"]
+                if rv["k"] == "Discriminant" and not rv["place"].get("p"):
+                    out.add(rv["place"]["l"])
+                elif rv["k"] == "Use" and not s["lhs"].get("p") and rv["ops"][0]["k"] in ("copy", "move") and not rv["ops"][0]["p"].get("p"):
+                    copies.append((s["lhs"]["l"], rv["ops"][0]["p"]["l"]))
+        changed = True
+        while changed:
+            changed = False
+            for dst, src in copies:
+                if dst in out and src not in out:
+                    out.add(src)
+                    changed = True
+        body._discr_locals = out
+        return out
 
     def _const_of(self, op, store):
         k = op["k"]
@@ -628,8 +655,9 @@ class Explorer:
             vs = [None if isinstance(v, tuple) else v for v in vs]
             if any(v is not None for v in vs):
                 val = ("T", tuple(vs))
-        elif rv["k"] == "Aggregate" and rv["agg"]["a"] == "Adt":
-            # enum variant (payload ignored): remember as ('V', adt, variant index)
+        elif rv["k"] == "Aggregate" and rv["agg"]["a"] == "Adt" and (not rv["ops"] or l in self.discr_locals):
+            # enum variant (payload ignored): remember as ('V', adt, variant index); variants with a payload
+            # are tracked only for locals whose discriminant is inspected later (keeps the store small)
             val = ("V", rv["agg"]["adt"], rv["agg"]["vi"])
         elif rv["k"] == "Discriminant":
             pl = rv["place"]
